@@ -638,7 +638,7 @@ M('prefix-D25-shape', ['C02', 'C03'], Z, "                    if topic and not s
 M('prefix-guard-only-when-subscribed-all', ['C02'], Z, "if topic and not sender.subscribed_all and topic not in sender.recvd_new:", "if topic and sender.subscribed_all and topic not in sender.recvd_new:", ['C02.R5'])
 M('loop-D26-shape-propagate-swallowed', ['C08'], F, "                                except Filter.PropagateError:  # obeying another filter's error exit is not an error of the loop to log and carry on from\n                                    raise\n", "", ['C08.R1'])
 M('send-D27-shape-none-path-no-poll', ['C08'], MQ, "            self.poll()  # nothing to publish, but the request sockets still need reading: exit messages from downstream arrive there\n", "", ['C08.R7'])
-M('mq-poll-never-reaches-sender', ['C08'], MQ, "        if self.sender is not None:\n            self.sender.poll()\n\n    def send(", "        if self.sender is None:\n            self.sender.poll()\n\n    def send(", ['C08.R7'])
+M('mq-poll-never-reaches-sender', ['C08'], MQ, "        if self.sender is not None:\n            self.sender.poll()\n\n        if self.metrics_sender is not None:  # a consumer", "        if self.sender is None:\n            self.sender.poll()\n\n        if self.metrics_sender is not None:  # a consumer", ['C08.R7', 'C08.R11'])
 M('wait-D36-shape-recv-wait-deaf', ['C08'], F, "            self.mq.poll()  # an exit message from downstream must be heard while waiting for upstream too\n", "", ['C08.R7'])
 M('poll-publishes', ['C08'], Z, "        self.send(lambda: None, timeout=0)", "        self.send(lambda: {}, timeout=0)", ['C08.R7'])
 M('required-D28-shape', ['C03', 'C06'], Z, "client_ids = set(str(client.client_id) for client in clients.values() if client.t_last >= t_min)", "client_ids = set(str(client.client_id) for client in clients.values())", ['C03.R6', 'C06.R10'])
@@ -791,3 +791,6 @@ M('sweep-filter-send-wait-gives-up-at-once', ['C04'], F, "            if (output
 M('sweep-util-xforms-skipped-when-configured', ['C17'], UT, "        if xforms := self.xforms:\n            topic_xforms =", "        if not (xforms := self.xforms):\n            topic_xforms =", ['C17.R12'])
 M('sweep-util-xform-assignment-swapped', ['C17'], UT, "                if (xform_topics := xform.topics) is None:  # apply to all topics", "                if (xform_topics := xform.topics) is not None:  # apply to all topics", ['C17.R12'])
 M('sweep-util-chain-result-not-stored', ['C17'], UT, "        topic_xform.frame = frame\n\n        return topic_xform", "        return topic_xform", ['C17.R12'])
+
+M('mq-D86-shape-metrics-sender-not-polled', ['C08'], MQ, "        if self.metrics_sender is not None:  # a consumer of the dedicated metrics output is a neighbour as well\n            self.metrics_sender.poll()\n", "", ['C08.R11'])
+M('mq-D87-shape-partial-setup-left-bound', ['C08'], MQ, "        except BaseException:  # what could be set up does not stay bound when the rest can not: nobody else holds this object, the addresses would be taken until it is collected\n            self.destroy()\n\n            raise\n", "        except BaseException:\n            raise\n", ['C08.R12'])
